@@ -350,25 +350,53 @@ def compare_exact(ctx, key, what, r, exp, legs, n, witness):
 
 # ================================================================== (a) swap_gate
 
-def gen_parity_tensor(rng, nprng, sym, ferm, rank, want_odd, dmax):
-    """Tensor over random legs whose total charge has the requested parity in the fermionic components (when reachable)."""
+def even_box(sym):
+    return [t for t in D.charge_box(sym) if not any(x % 2 for x in t)]
+
+
+def odd_charges(sym, mask):
+    return [t for t in D.charge_box(sym) if odd(sym, t, mask)]
+
+
+def gen_parity_tensor(rng, nprng, sym, ferm, rank, want, dmax, flavour="generic"):
+    """Tensor over random legs whose total charge is 'odd' / 'even' in the fermionic components or exactly 'zero' (when
+    reachable).  flavour: generic | all-even (legs hold only even charges: no sign can ever appear) | dim1-odd (one leg is a
+    single odd sector of dimension one) | empty (no stored block)."""
     mask = G.fmask(sym, ferm) if any(G.fmask(sym, ferm)) else G.fmask(sym, True)
-    legs = []
-    for _ in range(rank):
-        L = D.gen_leg(rng, sym, nsec=(2, 3) if rng.random() < 0.8 else (1, 3), dmax=dmax)
-        if rng.random() < 0.75:          # most legs carry a sector that is odd in a fermionic component
-            for _ in range(6):
-                if any(odd(sym, t, mask) for t in L.ts):
-                    break
-                L = D.gen_leg(rng, sym, nsec=(2, 3), dmax=dmax)
-        legs.append(L)
-    n = D.gen_n(rng, sym, legs, "fit")
-    for _ in range(12):
-        if odd(sym, n, ferm if any(G.fmask(sym, ferm)) else True) == want_odd:
-            break
+    n = None
+    for _attempt in range(12):
+        legs = []
+        for _ in range(rank):
+            if flavour == "all-even":
+                L = D.gen_leg(rng, sym, nsec=(1, 3), dmax=dmax, box=even_box(sym))
+            else:
+                L = D.gen_leg(rng, sym, nsec=(2, 3) if rng.random() < 0.8 else (1, 3), dmax=dmax)
+                if rng.random() < 0.75:          # most legs carry a sector that is odd in a fermionic component
+                    for _ in range(6):
+                        if any(odd(sym, t, mask) for t in L.ts):
+                            break
+                        L = D.gen_leg(rng, sym, nsec=(2, 3), dmax=dmax)
+            legs.append(L)
+        if flavour == "dim1-odd" and rank:
+            legs[rng.randrange(rank)] = D.HLeg(sym, rng.choice((-1, 1)), [(G.canon(sym, rng.choice(odd_charges(sym, mask))), 1)])
+        if want == "zero":
+            n = G.zero(sym)
+            if D.allowed_keys(sym, legs, n):
+                break
+            continue
         n = D.gen_n(rng, sym, legs, "fit")
+        for _ in range(12):
+            if odd(sym, n, mask) == (want == "odd"):
+                break
+            n = D.gen_n(rng, sym, legs, "fit")
+        break
     dt = rng.choice(("float64", "float64", "complex128"))
-    return D.gen_tensor(rng, nprng, sym, legs=legs, n=n, dtype=dt, density=rng.choice((1.0, 1.0, 0.7, 0.4)), fermionic=ferm)
+    a = D.gen_tensor(rng, nprng, sym, legs=legs, n=n, dtype=dt, density=rng.choice((1.0, 1.0, 0.7, 0.4)), fermionic=ferm)
+    if flavour == "empty":
+        a = a._new(blocks={})
+    elif not a.blocks:           # thin block mask removed everything: keep emptiness for the 'empty' flavour
+        a = D.gen_tensor(rng, nprng, sym, legs=legs, n=n, dtype=dt, density=1.0, fermionic=ferm)
+    return a
 
 
 def fusion_recipe(rng, rank):
@@ -398,14 +426,15 @@ def swap_case(ctx, idx, k):
     cfg = D.make_cfg(sym, ferm, tensordot_policy=rng.choice(POLICIES), default_fusion=rng.choice(("hard", "meta")))
     fuse = rng.choice(("none", "none", "hard", "meta", "two-level"))
     diag = fuse == "none" and rng.random() < 0.06
-    want_odd = rng.random() < 0.5
+    want = rng.choice(("odd", "odd", "even", "zero"))
+    flavour = rng.choice(("generic",) * 15 + ("all-even", "dim1-odd", "dim1-odd", "empty"))
     if diag:
         a = D.gen_diag(rng, nprng, sym, leg=D.gen_leg(rng, sym, nsec=(2, 3)), density=rng.choice((1.0, 0.7)), fermionic=ferm)
     else:
         rank = rng.randint(3, 5) if fuse != "none" else rng.choice((1, 2, 2, 3, 3, 4, 4, 5))
         if fuse == "two-level":
             rank = rng.randint(4, 5)
-        a = gen_parity_tensor(rng, nprng, sym, ferm, rank, want_odd, dmax=2 if rank >= 4 else 3)
+        a = gen_parity_tensor(rng, nprng, sym, ferm, rank, want, dmax=2 if rank >= 4 else 3, flavour=flavour)
     ya, state = c01.realize(a, rng, cfg, rng.choice(STATES))
     if state != "plain":
         ctx.count("swap_lazy_operands")
@@ -430,12 +459,12 @@ def swap_case(ctx, idx, k):
         ctx.count("swap_fused:" + fuse)
     nl = len(flat)
     # ---- the call
-    forms = ["charge-single", "charge-list"]
+    forms = ["charge-single", "charge-single", "charge-list", "charge-list"]
     if nl >= 2:
-        forms += ["pair", "pair", "multi"]
+        forms += ["pair", "pair", "pair", "multi", "multi", "doubled"]
     if nl >= 3:
-        forms += ["groups", "groups", "repeat", "multi"]
-    form = rng.choice(forms)
+        forms += ["groups", "groups", "groups", "groups", "repeat", "repeat", "multi", "multi"]
+    form = rng.choice(forms) if rng.random() > 0.04 else "empty"
     box = D.charge_box(sym)
     kwargs, pairs = {}, []
     if form == "pair":
@@ -449,6 +478,20 @@ def swap_case(ctx, idx, k):
         g1, g2 = tuple(sel[:cut]), tuple(sel[cut:])
         axes = (g1 if len(g1) > 1 or rng.random() < 0.5 else g1[0], g2 if len(g2) > 1 or rng.random() < 0.5 else g2[0])
         pairs = [(tuple(x for j in g1 for x in flat[j]), tuple(x for j in g2 for x in flat[j]))]
+    elif form == "doubled":       # the same crossing twice in one call is the identity (any grouping / order of the repeat)
+        m = rng.randint(2, min(nl, 3))
+        sel = rng.sample(range(nl), m)
+        cut = rng.randint(1, m - 1)
+        g1, g2 = tuple(sel[:cut]), tuple(sel[cut:])
+        rep = (g2[::-1], g1) if rng.random() < 0.5 else (g1, g2)
+        axes = tuple(g[0] if len(g) == 1 and rng.random() < 0.5 else g for g in (g1, g2) + rep)
+        f1, f2 = tuple(x for j in g1 for x in flat[j]), tuple(x for j in g2 for x in flat[j])
+        pairs = [(f1, f2), (f1, f2)]
+    elif form == "empty":         # nothing to swap: identity
+        axes = () if rng.random() < 0.5 else []
+        if rng.random() < 0.4:
+            kwargs["charge"] = tuple(rng.choice(box))
+        pairs = []
     elif form in ("multi", "repeat"):
         npairs = rng.randint(2, 3)
         axes, used = [], []
@@ -494,12 +537,42 @@ def swap_case(ctx, idx, k):
                "tensor": a.desc(values=a.size() <= 64)}
     call = f"axes={axes}" + (f", charge={kwargs['charge']!r}" if kwargs else "")
     what = f"swap_gate({call}) [{sym} fermionic={ferm} {state} fuse={fuse}{modes}]"
+    # an equivalent call with the containers in another order: pairs reversed, the two groups of a pair exchanged, legs inside
+    # a group reversed; for the charge form axes and charges permuted together
+    def _tup(g):
+        return (g,) if isinstance(g, int) else tuple(g)
+    if kwargs:
+        sel_v = list(_tup(axes))
+        if form == "charge-list":
+            q = list(range(len(sel_v)))
+            rng.shuffle(q)
+            axes_v, kwargs_v = tuple(sel_v[i] for i in q), {"charge": [kwargs["charge"][i] for i in q]}
+        else:
+            axes_v, kwargs_v = tuple(sel_v[::-1]), dict(kwargs)
+    else:
+        gl = [_tup(g) for g in axes]
+        pl = [(gl[i + 1][::-1], gl[i]) if rng.random() < 0.7 else (gl[i], gl[i + 1]) for i in range(0, len(gl), 2)]
+        rng.shuffle(pl)
+        axes_v, kwargs_v = tuple(g for pr in pl for g in pr), {}
+    # negative positions count from the LOGICAL rank of the (possibly meta-fused) tensor
+    negative = False
+    if rng.random() < 0.4:
+        def _neg(i):
+            nonlocal negative
+            if rng.random() < 0.6:
+                negative = True
+                return i - nl
+            return i
+        axes = _neg(axes) if isinstance(axes, int) else tuple(_neg(g) if isinstance(g, int) else tuple(_neg(i) for i in g) for g in axes)
     # documented argument types are Sequence[...]: lists are passed as often as tuples
     if not isinstance(axes, int) and rng.random() < 0.3:
         axes = [list(g) if isinstance(g, tuple) else g for g in axes]
+    witness["axes"] = axes
+    call = f"axes={axes}" + (f", charge={kwargs['charge']!r}" if kwargs else "")
+    what = f"swap_gate({call}) [{sym} fermionic={ferm} {state} fuse={fuse}{modes}]"
     listed = False
     if kwargs and rng.random() < 0.15:          # the charge(s) themselves as lists (Sequence[int] / Sequence[Sequence[int]])
-        kwargs_l = {"charge": list(kwargs["charge"]) if form == "charge-single" else [list(t) for t in kwargs["charge"]]}
+        kwargs_l = {"charge": list(kwargs["charge"]) if form != "charge-list" else [list(t) for t in kwargs["charge"]]}
         listed = True
     reach().start_case()
     if listed:
@@ -516,7 +589,8 @@ def swap_case(ctx, idx, k):
     else:
         r = yb.swap_gate(axes=axes, **kwargs)
     if fermionic:
-        key = "swap_gate:" + ("charge" if kwargs else "axes") + ("" if fuse == "none" else ":fused-" + fuse) + (":lazy" if state == "lazy" else "")
+        key = "swap_gate:" + ("charge" if kwargs else "axes") + ("" if fuse == "none" else ":fused-" + fuse) + (":lazy" if state == "lazy" else "") \
+              + (":negative-axes" if negative else "")
     else:
         key = "swap_gate:bosonic-not-identity"
     ru = unfuse_all(r) if fuse != "none" else r
@@ -524,6 +598,12 @@ def swap_case(ctx, idx, k):
     # the fused result itself keeps the legs of the fused operand
     if fuse != "none" and (r.get_legs() != yb.get_legs() or tuple(r.n) != tuple(yb.n)):
         ctx.violation("result-legs:" + key, f"{what}: legs / charge of the fused result differ from the fused operand", witness)
+    # the same gate with the containers of the arguments in another order
+    rv = yb.swap_gate(axes=axes_v, **kwargs_v)
+    ctx.count("swap_reordered_argument_checked")
+    compare_exact(ctx, "reordered-arguments:" + key, f"swap_gate(axes={axes_v}{', charge=%r' % (kwargs_v['charge'],) if kwargs_v else ''}) "
+                  f"[equivalent re-ordering of {call}; {sym} fermionic={ferm} {state} fuse={fuse}{modes}]",
+                  unfuse_all(rv) if fuse != "none" else rv, expected, base.legs, base.n, witness)
     # involution
     r2 = r.swap_gate(axes=axes, **kwargs)
     r2u = unfuse_all(r2) if fuse != "none" else r2
@@ -551,6 +631,32 @@ def swap_case(ctx, idx, k):
     ctx.count("swap_state:" + state)
     if diag:
         ctx.count("swap_diag_tensor")
+    else:
+        ctx.count("swap_flavour:" + flavour)
+    if negative:
+        ctx.count("swap_negative_axes")
+        if "meta" in modes:
+            ctx.count("swap_negative_axes_meta")
+            if state == "lazy":
+                ctx.count("swap_negative_axes_meta_lazy")
+    if not len(a.blocks):
+        ctx.count("swap_no_blocks_tensor")
+    if any(l.dim == 1 and odd(sym, l.ts[0], True) for l in a.legs):
+        ctx.count("swap_dim1_odd_leg")
+    if len(a.blocks) and not any(a.n):
+        ctx.count("swap_zero_charge_tensor")
+    mixed_flag = fermionic and not all(G.fmask(sym, ferm))
+    if (mixed_flag or not fermionic) and dense0.size:
+        # the gate must NOT see the bosonic components: count the cases where an all-fermionic reading would differ
+        if np.any((swap_sign_array(base, pairs, True) != S) & stored_mask):
+            ctx.count("swap_bosonic_component_discriminating")
+            if mixed_flag:
+                ctx.count("swap_partial_tuple_discriminating")
+    if fuse != "none":
+        fm = G.fmask(sym, ferm if fermionic else True)
+        used = [g for pr in pairs for g in pr if isinstance(g, tuple) and len(g) > 1 and not (len(g) == 2 and g[0] == "charge")]
+        if any(len({odd(sym, key[l], fm) for l in g}) == 2 for g in used for key in base.blocks):
+            ctx.count("swap_fused_mixed_parity_constituents")
     if len(a.blocks):
         ctx.count("swap_odd_tensor" if odd(sym, a.n, True) else "swap_even_tensor")
     if sensitive:
